@@ -434,6 +434,7 @@ impl TCheck for C07 {
             }),
             record_events: true,
             hard_fault: false,
+            one_cpu: false,
         }
     }
     fn history_oracle(&self, events: &[Event], _report: &BodyReport) -> Vec<String> {
